@@ -27,7 +27,8 @@ LNext == QInit \/ QBlock \/ QFinish \/ ConvertBack
 LSpec == LInit /\ [][LNext]_vars
 
 LayoutMatches ==
-    Finished => /\ \A b \in Blocks : Lookup(q.file, b) = Tr.map[b + 1]
+    Finished => /\ Len(Tr.map) = NB /\ Len(Tr.l1) = L1N /\ Len(Tr.rt) <= Cardinality(DOMAIN q.file[RtOff].d)   \* (keeps the comparison total)
+                /\ \A b \in Blocks : Lookup(q.file, b) = Tr.map[b + 1]
                 /\ \A i \in 0 .. L1N - 1 : q.file[L1Off].d[i] = Tr.l1[i + 1]
                 /\ \A i \in 1 .. Len(Tr.rt) : q.file[RtOff].d[i - 1] = Tr.rt[i]
                 /\ \A i \in DOMAIN q.file[RtOff].d : i >= Len(Tr.rt) => q.file[RtOff].d[i] = 0
